@@ -33,7 +33,7 @@ func init() {
 		Explanation: "Static totality/boundedness clauses of the decoders: (1) every slice or index of the Deserializer's source beyond the offset is dominated by the failing-return edge of a remaining-length comparison for the same size; (2) every allocation whose size is not a constant (make) in the Deserializer is dominated by such a guard for that size, and the stream read helpers contain no size-driven make at all and reject sizes that do not fit an int; (3) no unchecked type assertion to a JSON value type and no reflect use of a raw JSON value without a dominating type test in serix map decoding; (4) every loop bounded by a decoded length contains a fallible input-consuming call whose failure leaves the loop; (5) explicit panics in the decode-reachable files are exactly the tabled programmer-error panics; switches over the length-prefix type cover every declared constant. Also: every slice or index expression on an input-derived []byte outside the Deserializer (serix decode functions, element validators) is length-guarded on every path or bounded by the count returned by a decoder that was handed the same slice. (9) reflect copies are bounded by their destination; remaining-length snapshots are valid only while the offset has not moved.",
 		NotDecided:  "panics inside reflect for shapes not covered, allocation inside hexutil/encoding/json, zero-size elements in prefix-bounded loops (type dependent)",
 		Assumptions: []string{"encoding/json yields only string/float64/bool/nil/map[string]any/[]any"},
-	}})
+	}, Modes: []string{"stacktrace"}})
 	register(&property{ID: "C03", Run: runC03, Meta: propMeta{
 		Explanation: "Static wire-format clauses: (1) no big-endian or native-endian reference in serializer, serix, stream, typeutils; every binary.Write/Read there passes LittleEndian (the matcher is validated on every run against a package of this repository that does use BigEndian); (2) width tables: length prefixes 1/2/4/8 bytes for the four declared constants on writer and reader, number widths equal the types' sizes and ReadNum uses LittleEndian.UintN of the same width, payload/optional marker is uint32; (3) strict booleans: ReadBool accepts exactly 0 and 1 (error default), WriteBool writes only 0/1; (4) canonical decoding: the reader applies the same validators as the writer (CheckBounds + ElementValidationFunc under the validation bit), decodeMap forces lexical ordering and rejects duplicate keys before inserting, the optional-field length mismatch returns an error; (5) the lexical validators and the sort use bytes.Compare with the tabled relations. Also: a timestamp is saturated only when its seconds exceed MaxNanoTimestampInt64Seconds strictly, on writer and reader; an array is filled only through the edge on which the decoded element count equals the array length. Also: array bounds are checked before every non-failing exit of the sequence reader/writer in validation mode, and every decoding function that creates a Deserializer surfaces its sticky error through Done().",
 		NotDecided:  "byte-for-byte equality with an independent reference encoder; Decode∘Encode = id on accepted inputs beyond the listed validators",
